@@ -150,7 +150,7 @@ int main()
             }
             printf("C %ld\n", id);
             fflush(stdout);
-            alarm(20);
+            alarm(10);
             DenseMatrix X(D, N);
             for (int i = 0; i < N; i++)
                 for (int j = 0; j < D; j++)
@@ -177,7 +177,7 @@ int main()
             }
             printf("C %ld\n", id);
             fflush(stdout);
-            alarm(20);
+            alarm(10);
             DenseMatrix T(N, N);
             for (int i = 0; i < N; i++)
                 for (int j = 0; j < N; j++)
@@ -207,7 +207,7 @@ int main()
             }
             printf("C %ld\n", id);
             fflush(stdout);
-            alarm(20);
+            alarm(10);
             DenseMatrix X(D, N);
             for (int i = 0; i < N; i++)
                 for (int j = 0; j < D; j++)
@@ -245,7 +245,7 @@ int main()
             }
             printf("C %ld\n", id);
             fflush(stdout);
-            alarm(20);
+            alarm(10);
             DenseMatrix T(N, N);
             for (int i = 0; i < N; i++)
                 for (int j = 0; j < N; j++)
@@ -305,7 +305,7 @@ int main()
             }
             printf("C %ld\n", id);
             fflush(stdout);
-            alarm(30);
+            alarm(10);
             tapkee_internal::Neighbors nbrs(N);
             for (int i = 0; i < N; i++)
                 for (int a = 0; a < k; a++)
